@@ -2,8 +2,8 @@
 //! — unit U-selectors (C22): the real `no_placeholder` functions on small
 //! concrete selector structures (bounded).  The fold they share
 //! (Opt::collect_pos / collect_neg) is under contract in opt.rs.
-use super::compound::kani_verif as kc;
-use super::pseudo::kani_verif as kp;
+use super::super::compound::kani_verif as kc;
+use super::super::pseudo::kani_verif as kp;
 use super::*;
 
 fn sel(compound: CompoundSelector, rel: Option<(RelKind, Selector)>) -> Selector {
@@ -39,9 +39,9 @@ fn c22_selector_without_placeholder_is_kept() {
 #[kani::proof]
 #[kani::unwind(5)]
 fn c22_selector_list_drops_placeholder_members() {
-    // `.c, %p, #i.c`
+    // `%p, .c, #i.c`
     let third = sel(kc::mk(true, false, true, vec![]), None);
-    let set = SelectorSet { s: vec![simple(false), simple(true), third.clone()] };
+    let set = SelectorSet { s: vec![simple(true), simple(false), third.clone()] };
     match set.no_placeholder() {
         Opt::Some(r) => {
             assert!(r.s.len() == 2, "exactly the selector with a placeholder is removed");
@@ -92,6 +92,29 @@ fn c22_pseudo_is_keeps_placeholder_free_alternatives() {
             }
         }
         _ => assert!(false, ":is(.c, %p) is kept"),
+    }
+}
+/// … and in every other pseudo selector that takes a selector argument
+/// (`::slotted(%p)`, `:nth-child(2n of %p)`, …): it matches nothing.
+#[kani::proof]
+#[kani::unwind(8)]
+fn c22_pseudo_other_selector_argument_with_placeholder_matches_nothing() {
+    let p = kp::with_selector("slotted", SelectorSet { s: vec![simple(true)] });
+    assert!(matches!(p.no_placeholder(), Opt::None), "::slotted(%p) matches nothing");
+    let c = kc::mk(false, false, true, vec![p]);
+    assert!(matches!(c.no_placeholder(), Opt::None), "`.c::slotted(%p)` is removed");
+}
+/// A compound with two pseudo selectors: `:not(%p)` is dropped, the other
+/// one stays (`.c:not(%p):hover` becomes `.c:hover`).
+#[kani::proof]
+#[kani::unwind(8)]
+fn c22_compound_not_placeholder_keeps_other_pseudos() {
+    let p1 = kp::with_selector("not", SelectorSet { s: vec![simple(true)] });
+    let p2 = kp::plain("hover");
+    let c = kc::mk(false, false, true, vec![p1, p2]);
+    match c.no_placeholder() {
+        Opt::Some(r) => assert!(kc::shape(&r) == (0, 1, false, 1), "`.c:not(%p):hover` becomes `.c:hover`"),
+        _ => assert!(false, "`.c:not(%p):hover` is kept"),
     }
 }
 #[kani::proof]
